@@ -281,6 +281,20 @@ pub fn tamper_stream(out: &mut Out, tier: &str, seed: u64, c02: bool, c17: bool)
                     out.case("stream.history", &[b(k2), b(n2), b(k2), b(n2), steps], &Outcome::Ok(vec![Tok::L(rr)]), true);
                 }
             }
+            // the error a rejected pull returns must not depend on (or quote) what the rejected bytes decrypt to
+            if c17 && len % 3 == 0 {
+                use dryoc::classic::crypto_secretstream_xchacha20poly1305::*;
+                let text = |c2: &Vec<u8>| -> Option<String> { let mut st = State::verif_from_parts(&k0, &n0); let mut mb = vec![SENT; c2.len() - 17]; let mut tv = TAGSENT;
+                    match std::panic::catch_unwind(std::panic::AssertUnwindSafe(|| crypto_secretstream_xchacha20poly1305_pull(&mut st, &mut mb, &mut tv, c2, Some(&ad)))) { Ok(Err(e)) => Some(format!("{:?}", e)), _ => None } };
+                let mut texts: Vec<(usize, Option<String>)> = vec![];
+                for bit in (0..8).chain([8 * (c.len() / 2), 8 * (c.len() - 1) + 3]) { if bit / 8 < c.len() { let mut c2 = c.clone(); c2[bit / 8] ^= 1 << (bit % 8); texts.push((bit, text(&c2))); } }
+                out.search_evaluations += texts.len() as u64;
+                let first = texts[0].1.clone();
+                for (bit, t) in texts.iter() {
+                    if t.is_none() { continue; }   // accepted or panicked: reported by the checks above
+                    if *t != first { out.hit("stream.pull.error-text-depends-on-ciphertext", format!("len {}: flipping bit {} gives {:?}, flipping bit {} gives {:?}", len, texts[0].0, first, bit, t), json!({"op":"stream.pull.error-text","k":hx(&k0),"nonce":hx(&n0),"c":hx(&c),"ad":hx(&ad)})); break; }
+                }
+            }
             // header / key tampering at initialisation (first message of a stream)
             if len % 6 == 0 && adl == 0 {
                 let mut s0 = SStream::init(&header, &key);
@@ -326,6 +340,21 @@ pub fn tamper_stream(out: &mut Out, tier: &str, seed: u64, c02: bool, c17: bool)
                     out.search_evaluations += 1;
                     let r = guard(|| fresh().pull_to_vec(&co, a2.as_ref()));
                     if !r.is_err() { out.hit("obj.stream.pull.accepts-tampered.ad", format!("{} len {} adlen {} ({})", what, len, adl, r.class()), rp.clone()); }
+                }
+                // one pull stream object kept across failures: after any number of rejected pulls the genuine message still opens,
+                // and a message pushed from an all-zero (never keyed) state is not accepted afterwards
+                {
+                    let mut pl = fresh();
+                    let mut c2 = co.clone(); c2[0] ^= 0x20;
+                    let r1 = guard(|| pl.pull_to_vec(&c2, Some(&ad)));
+                    let r2 = guard(|| pl.pull_to_vec(&co[..co.len() - 1].to_vec(), Some(&ad)));
+                    let forged = { use dryoc::classic::crypto_secretstream_xchacha20poly1305::*; let mut zs = State::new(); let mut fc = vec![0u8; 9 + 17]; let _ = crypto_secretstream_xchacha20poly1305_push(&mut zs, &mut fc, b"forged!!!", None, 0); fc };
+                    let r3 = guard(|| pl.pull_to_vec(&forged, None::<&Vec<u8>>));
+                    let r4 = guard(|| pl.pull_to_vec(&co, Some(&ad)));
+                    out.search_evaluations += 4;
+                    if r1.is_ok() || r2.is_ok() { out.hit("obj.stream.pull.accepts-tampered.ciphertext", format!("len {}", len), rp.clone()); }
+                    if !r3.is_err() { out.hit("obj.stream.pull.accepts-forgery-after-a-failed-pull", format!("len {}: a message pushed from the all-zero state opened after two rejected pulls ({})", len, r3.class()), json!({"op":"obj.DryocStream.pull","key":hx(&key),"header":hx(hdr.as_array()),"forged":hx(&forged)})); }
+                    match r4 { Outcome::Ok((pm, _)) if pm == m => {}, o => out.hit("obj.stream.pull.rejects-genuine-after-failed-pulls", format!("len {} adlen {} ({})", len, adl, o.class()), rp.clone()) }
                 }
                 for bit in (0..co.len() * 8).step_by(11) {
                     let mut c2 = co.clone(); c2[bit / 8] ^= 1 << (bit % 8);
